@@ -291,6 +291,37 @@ def r14_4(ctx, prog):
                             okk = False
             if okk:
                 ctx.check(found > 0, 'R14.4', inst, 'unreached', '%s is returned only for its own node kind, carrying that node\'s identifier' % vn, span=sp)
+        elif short(f.path) == 'operator::Operator::eval_mut' and vn == 'VariableIdentifierNotFound':
+            # an assignment arm reporting a missing variable: the name must be the assignment target, i.e. the string the left child
+            # (a VariableIdentifierWrite node, listed by the iterators) evaluated to
+            import tables
+            val = prog.adt(tables.VALUE)
+            sv = [x for x in val['variants'] if x['name'] == 'String'][0]
+            arguments = ('tuple', (ADT(val['path'], sv['idx'], 'String', [SYM('target')]), SYM('rhs')))
+
+            def hook2(it, fn, t, args):
+                c = t['callee']
+                if c.get('trait') and path_endswith(c['trait'], 'context::Context') and c['name'] == 'get_value':
+                    return NONE
+                if c.get('trait') and 'context::' in c['trait']:
+                    return ('app', 'Context::' + c['name'], tuple(args))
+                if c.get('local') and c['name'] == 'eval' and 'Operator' in c['def'] and not (args and args[0][0] == 'adt' and args[0][3] == 'VariableIdentifierRead'):
+                    return ('app', 'Operator::eval', tuple(args))
+                return None
+            okk, cnt = True, 0
+            for v in op['variants']:
+                if v['name'] not in tables.ASSIGN or v['name'] == 'Assign':
+                    continue
+                try:
+                    paths = Interp(prog, hook=hook2, max_depth=3).paths(f, [ADT(op['path'], v['idx'], v['name'], []), arguments, SYM('context')])
+                except Budget:
+                    okk = False
+                    break
+                for ret, _ in paths:
+                    for e in find_adts(ret, vn):
+                        cnt += 1
+                        okk = okk and e[4] == (SYM('target'),)
+            ctx.check(okk and cnt > 0, 'R14.4', inst, 'payload', 'an assignment arm reports a missing variable only under the name of its assignment target (the left child\'s identifier)', span=sp)
         elif f.name == 'call_function' and path_endswith(f.j.get('impl_trait') or '', 'context::Context') and vn == 'FunctionIdentifierNotFound':
             it = Interp(prog)
             paths = it.paths(f, [SYM('self'), SYM('identifier'), SYM('argument')])
